@@ -17,6 +17,17 @@ CHECKS = {
              "not strictly inside CR LF; columns on UTF-16 character boundaries or past the end of line.",
         technique="TLA+ state machine of the conversion loops vs declarative reference (TLC, exhaustive to length 4/5) + exhaustive spec->impl replay + impl->spec oracle validation",
     ),
+    "C07": dict(
+        design_ref="DESIGN.md 3.2, 4 (C07)",
+        text="TLC model-checks Unify.tla, a state machine with one action per activation of unify()/union(), over every system of up to "
+             "2 (quick) / 3 (thorough) equations of a tag universe: the union-find stays a forest, no class becomes cyclic (= reduce "
+             "terminates), the run terminates, the verdict equals solvability by an independent Robinson unifier, the result is a most "
+             "general unifier. Every system is then replayed through the real InferenceSet/union-find and verdict plus reduced tags "
+             "(up to renaming) are compared. Program level: verdict and error class of the real compiler under permutations of "
+             "declarations and consistent renamings. Bounded, not a proof.",
+        note="Trusted: TLC, the tag translation, hook H2 re-exports. Bounds in spec/mc/Unify_*.cfg.",
+        technique="TLA+ state machine of the union-find unifier vs reference Robinson unifier (TLC, all systems up to a bound) + per-system replay into the real unifier",
+    ),
 }
 
 PENDING_REASON = "check not built yet (work in progress; see DESIGN.md section 8 for the build order)"
